@@ -1161,7 +1161,7 @@ class Gen:
         f.probe = t
         return f
 
-    def feature_probe_function(self, idx):
+    def feature_probe_function(self, idx, force=None):
         """one operator of a newer language feature on the arguments, called at its boundaries: shifts, `**`, flags, decimals"""
         r = self.r
         W = 2 ** 256
@@ -1176,7 +1176,7 @@ class Gen:
             kinds += ["dec"] * 2
         if not kinds:
             return None
-        kind = r.choice(kinds)
+        kind = force or r.choice(kinds)
         if kind == "shift":
             t = r.choice([U256, ("int", 256, True)])
             lo, hi = int_bounds(t)
@@ -1223,7 +1223,7 @@ class Gen:
             n = ft[2]
             a0, a1 = E("var", ft, name="a0", id=0), E("var", ft, name="a1", id=1)
             member = E("const", ft, v=1 << r.randrange(n))
-            sub = r.choice(["not", "or", "and", "xor", "in", "notin", "member_in", "eq"])
+            sub = r.choice(["not", "not", "or", "and", "xor", "in", "notin", "member_in", "member_in", "member_or", "eq"])
             if sub == "not":
                 ret, e = ft, E("flagnot", ft, a=a0)
             elif sub in ("or", "and", "xor"):
@@ -1232,6 +1232,8 @@ class Gen:
                 ret, e = BOOL, E("flagin", BOOL, neg=(sub == "notin"), a=a0, b=a1)
             elif sub == "member_in":
                 ret, e = BOOL, E("flagin", BOOL, neg=False, a=member, b=a0)
+            elif sub == "member_or":
+                ret, e = ft, E("bin", ft, op="BOr", a=a0, b=E("const", ft, v=(1 << r.randrange(n)) | (1 << r.randrange(n))))
             else:
                 ret, e = BOOL, E("cmp", BOOL, op=r.choice(["Eq", "Ne"]), a=a0, b=a1)
             f = Fun(f"p{idx}", [("a0", ft), ("a1", ft)], ret, [S("return", e=e)], True)
@@ -1546,6 +1548,11 @@ class Gen:
             fp = self.feature_probe_function(len(p.exts))
             if fp is not None:
                 p.exts.append(fp)
+            if self.flag_types:
+                for _ in range(2):
+                    p.exts.append(self.feature_probe_function(len(p.exts), force="flag"))
+            if self.use_dec:
+                p.exts.append(self.feature_probe_function(len(p.exts), force="dec"))
         return p
 
     # ---------------------------------------------------------------- calls
